@@ -16,11 +16,13 @@ import (
 	"path/filepath"
 	"sort"
 	"strings"
+	"sync"
 	"time"
 
 	"github.com/cenkalti/backoff/v4"
 
 	"github.com/restic/restic/internal/backend"
+	"github.com/restic/restic/internal/backend/local"
 	"github.com/restic/restic/internal/data"
 	"github.com/restic/restic/internal/global"
 	"github.com/restic/restic/internal/repository"
@@ -51,6 +53,11 @@ type c09H struct {
 	hNo    map[restic.BlobHandle]int
 	nfile  int
 	nscen  int
+	cancelEvent int      // cancel the command context at this progress event of Execute (-1: never)
+	cancelFn    func()   // cancels the context of the running pruneDirect
+	lastEvents  []string // progress events (counter descriptions) of the last pruneDirect's Execute
+	rawStack    bool     // pruneDirect opens the repository on the bare local backend (library use: no
+	// connection limiter / retry layer between the repository and the backend), without locking
 }
 
 type c09Abs struct {
@@ -60,7 +67,7 @@ type c09Abs struct {
 }
 
 func c09NewH(c *vctx, name string, rng *vrng) *c09H {
-	h := &c09H{c: c, e: newVenv(c, name), rng: rng, name: name, root: filepath.Join(c.dir, name),
+	h := &c09H{cancelEvent: -1, c: c, e: newVenv(c, name), rng: rng, name: name, root: filepath.Join(c.dir, name),
 		packNo: map[restic.ID]int{}, idxNo: map[restic.ID]int{}, hNo: map[restic.BlobHandle]int{}}
 	return h
 }
@@ -420,6 +427,42 @@ type c09Plan struct {
 	stats                               repository.PruneStats
 }
 
+// c09Printer wraps the command's printer: every Add of a progress counter during Execute is a
+// "progress event"; the context can be cancelled exactly at the k-th event (what a SIGINT at that
+// moment does to the command context).
+type c09Printer struct {
+	restic.Printer
+	mu     sync.Mutex
+	armed  bool
+	events []string
+	at     int
+	cancel func()
+}
+
+type c09Counter struct {
+	restic.Counter
+	p    *c09Printer
+	desc string
+}
+
+func (p *c09Printer) NewCounter(desc string) restic.Counter {
+	return &c09Counter{Counter: p.Printer.NewCounter(desc), p: p, desc: desc}
+}
+
+func (c *c09Counter) Add(v uint64) {
+	c.Counter.Add(v)
+	c.p.mu.Lock()
+	fire := false
+	if c.p.armed {
+		fire = len(c.p.events) == c.p.at
+		c.p.events = append(c.p.events, c.desc)
+	}
+	c.p.mu.Unlock()
+	if fire {
+		c.p.cancel()
+	}
+}
+
 // pruneDirect does what runPrune does, keeping the plan.
 func (h *c09H) pruneDirect(o c09Opt) (pl *c09Plan, planErr, execErr error) {
 	opts := PruneOptions{MaxUnused: o.maxUnused, MaxRepackSize: o.maxRepack, RepackCacheableOnly: o.cacheable, RepackUncompressed: o.uncompressed, SmallPackSize: o.small}
@@ -428,13 +471,37 @@ func (h *c09H) pruneDirect(o c09Opt) (pl *c09Plan, planErr, execErr error) {
 			planErr = err
 			return err
 		}
-		printer := progress.NewTerminalPrinter(gopts.JSON, gopts.Verbosity, gopts.Term)
-		ctx, repo, unlock, err := openWithExclusiveLock(ctx, gopts, false, printer)
-		if err != nil {
-			planErr = err
-			return err
+		ctx, cancel := context.WithCancel(ctx)
+		defer cancel()
+		h.cancelFn = cancel
+		cp := &c09Printer{Printer: progress.NewTerminalPrinter(gopts.JSON, gopts.Verbosity, gopts.Term), at: h.cancelEvent, cancel: cancel}
+		defer func() { h.lastEvents = cp.events }()
+		var printer restic.Printer = cp
+		var repo *repository.Repository
+		if h.rawStack {
+			lbe, err := local.Open(ctx, local.Config{Path: h.e.repo, Connections: 2}, nil)
+			if err != nil {
+				planErr = err
+				return err
+			}
+			repo, err = repository.New(&vrecBackend{Backend: lbe, r: h.e.rec}, repository.Options{})
+			if err == nil {
+				err = repo.SearchKey(ctx, vPassword, 20, "")
+			}
+			if err != nil {
+				planErr = err
+				return err
+			}
+		} else {
+			var unlock func()
+			var err error
+			ctx, repo, unlock, err = openWithExclusiveLock(ctx, gopts, false, printer)
+			if err != nil {
+				planErr = err
+				return err
+			}
+			defer unlock()
 		}
-		defer unlock()
 		if err := repo.LoadIndex(ctx, printer); err != nil {
 			planErr = err
 			return err
@@ -472,6 +539,9 @@ func (h *c09H) pruneDirect(o c09Opt) (pl *c09Plan, planErr, execErr error) {
 		sort.Ints(pl.remove)
 		sort.Ints(pl.ignore)
 		sort.Ints(pl.keep)
+		cp.mu.Lock()
+		cp.armed = true
+		cp.mu.Unlock()
 		execErr = plan.Execute(ctx, printer)
 		return execErr
 	})
@@ -687,6 +757,7 @@ func (h *c09H) runScenario(kind string, o c09Opt, maxPrefixes int) error {
 	h.e.rec.Reset()
 	pl, planErr, execErr := h.pruneDirect(o)
 	mods := h.e.rec.Mods()
+	refEvents := append([]string{}, h.lastEvents...)
 	h.clearLocks()
 	ops, obs, err := h.trace(mods)
 	if err != nil {
@@ -800,6 +871,9 @@ func (h *c09H) runScenario(kind string, o c09Opt, maxPrefixes int) error {
 			fmt.Sprintf("%s opts=[%s] cut=%d/%d (last done %s, reference next %s) prune err=%v -> check=%v restore=%v rerun=%v", h.name, o, k, n, last, next, cerr != nil, ck, rs, rr))
 	}
 	if err := h.faultRuns(kind, o, s0, mods, r0Name, usedName, maxPrefixes, baseline); err != nil {
+		return err
+	}
+	if err := h.cancelRuns(kind, o, s0, mods, refEvents, r0Name, usedName, maxPrefixes, baseline); err != nil {
 		return err
 	}
 	return c09Sync(final, h.e.repo)
@@ -1138,3 +1212,137 @@ func c09Histories(c *vctx) error {
 }
 
 var _ = errors.Is
+
+
+// cancelRuns: the same prune from the same state with the command's context cancelled (a) when the
+// k-th modifying backend op is issued, (b) at the k-th progress event of Execute (counter updates:
+// packs repacked, indexes processed, old indexes deleted, files deleted). Each point is repeated
+// because the outcome of a cancellation depends on select races inside the code.
+func (h *c09H) cancelRuns(kind string, o c09Opt, s0 string, mods []vop, events []string, r0Name, usedName string, maxSel int, baseline bool) error {
+	c := h.c
+	type spec struct {
+		mode string
+		k    int
+		what string
+	}
+	var specs []spec
+	reps := 3
+	if maxSel > 0 {
+		// quick: every "indexes processed" event, the first event of every other counter, and one
+		// modifying op per class
+		seenDesc := map[string]bool{}
+		for k, d := range events {
+			if d == "indexes processed" || !seenDesc[d] {
+				specs = append(specs, spec{"event", k, d})
+			}
+			seenDesc[d] = true
+		}
+		seenKey := map[string]bool{}
+		for k, m := range mods {
+			key := m.Op + "/" + fmt.Sprint(m.Type)
+			if !seenKey[key] {
+				specs = append(specs, spec{"mod", k, key})
+			}
+			seenKey[key] = true
+		}
+		if len(specs) > maxSel+6 {
+			specs = specs[:maxSel+6]
+		}
+	} else {
+		for k, d := range events {
+			specs = append(specs, spec{"event", k, d})
+		}
+		for k, m := range mods {
+			specs = append(specs, spec{"mod", k, m.Op + "/" + fmt.Sprint(m.Type)})
+		}
+		reps = 4
+	}
+	for _, sp := range specs {
+		n := reps
+		if maxSel > 0 {
+			// quick: repeat only the cancellation right after the last index file was processed
+			lastIdx := -1
+			for k, d := range events {
+				if d == "indexes processed" {
+					lastIdx = k
+				}
+			}
+			if !(sp.mode == "event" && sp.k == lastIdx) {
+				n = 1
+			} else {
+				n = 4
+			}
+		}
+		for rep := 0; rep < n; rep++ {
+			if err := c09Sync(s0, h.e.repo); err != nil {
+				return err
+			}
+			h.clearLocks()
+			h.e.rec.Reset()
+			h.cancelEvent = -1
+			h.rawStack = false
+			if sp.mode == "event" {
+				h.cancelEvent = sp.k
+				// library-level stack: nothing between the repository and the backend re-checks the context
+				h.rawStack = true
+			} else {
+				cnt := 0
+				h.e.rec.OnOp = func(op *vop) error {
+					if op.modifying() && op.Type != backend.LockFile {
+						if cnt == sp.k && h.cancelFn != nil {
+							h.cancelFn()
+						}
+						cnt++
+					}
+					return nil
+				}
+			}
+			pl, planErr, execErr := h.pruneDirect(o)
+			h.e.rec.OnOp = nil
+			h.cancelEvent = -1
+			h.rawStack = false
+			var att []vop
+			for _, op := range h.e.rec.Ops() {
+				if op.modifying() && op.Type != backend.LockFile {
+					att = append(att, op)
+				}
+			}
+			h.e.rec.Reset()
+			h.clearLocks()
+			ops, obs, err := h.trace(att)
+			if err != nil {
+				return err
+			}
+			ftr := make([]string, len(ops))
+			nfail := 0
+			for i := range ops {
+				ftr[i] = coqTuple(ops[i], coqBool(!att[i].Err))
+				if att[i].Err {
+					nfail++
+				}
+			}
+			aborted := planErr != nil
+			plTerm := "(mkPl [] [] [] [] [])"
+			if pl != nil {
+				rm := append(append([]int{}, pl.remove...), pl.repack...)
+				excl := append(append([]int{}, rm...), pl.ignore...)
+				plTerm = fmt.Sprintf("(mkPl %s %s %s %s %s)", c09Ns(pl.removeFirst), c09Ns(rm), c09Ns(excl), c09Ns(pl.keep), c09Ns(obs))
+			}
+			reported := planErr != nil || execErr != nil
+			ck, rs := (!baseline && reported) || h.checkOK(), h.restoreOK()
+			rr := true
+			if c.thorough() || rep == 0 {
+				_, _, rerr := h.e.cli(append([]string{"prune"}, o.flags()...)...)
+				h.clearLocks()
+				rr = rerr == nil && h.checkOK()
+			}
+			c.Hist("cancel-" + sp.mode + "-" + sp.what)
+			// a cancelled run may always report an error; what it must never do is lose data
+			c.Case("cancel-"+kind, true, sp.k, fmt.Sprintf("C09m.CFault %s %s %s %s %s %s %s %s %s", r0Name, usedName, plTerm, coqBool(aborted), coqList(ftr),
+				coqBool(true), coqBool(ck), coqBool(rs), coqBool(rr)),
+				fmt.Sprintf("%s opts=[%s] context cancelled at %s %d (%s), repetition %d: attempted=%d failed=%d prune reported error=%v -> check=%v restore=%v rerun=%v",
+					h.name, o, sp.mode, sp.k, sp.what, rep, len(att), nfail, reported, ck, rs, rr))
+		}
+	}
+	return nil
+}
